@@ -190,19 +190,12 @@ def parseCb (s : String) : PartCb :=
                       setQuality := parseOptInt q }
   | _ => {}
 
-def addDev (w : World) (d : Dev) : World :=
-  let i := w.devs.length
-  let d := { d with aid := w.assets.length + 1 }
-  let ups := d.up
-  let w := { w with devs := w.devs ++ [{ d with up := [] }], assets := w.assets ++ [AssetRef.dev i] }
-  -- constructor: set_upstream(upstream)
-  w.rewire i ups
-
-def handleAsset (w : World) (toks : List String) : World :=
+/-- Parse the tokens after `asset` / `create` into a constructor call. -/
+def parseSpec (toks : List String) : Option AssetSpec :=
   match toks with
   | "dev" :: kind :: rest =>
     let g := fun k => kv rest k
-    let d : Dev := {
+    some (.dev {
       kind := parseKind kind
       up := (g "up").map parseNats |>.getD []
       cycle := (g "cyc").map parseInt |>.getD 0
@@ -221,38 +214,17 @@ def handleAsset (w : World) (toks : List String) : World :=
       finCbs := ((g "fincb").map (splitList ",") |>.getD []).map parseCb
       nShutCbs := (g "nshut").map parseNat |>.getD 0
       nRestCbs := (g "nrest").map parseNat |>.getD 0
-      group := (g "group").map parseNat |>.getD 0 }
-    let w := addDev w d
-    -- a group path registers with its group
-    if d.kind == .gpath then
-      let gr := w.groups.getD d.group default
-      { w with groups := w.groups.set d.group { gr with paths := gr.paths ++ [w.devs.length - 1] } }
-    else w
+      group := (g "group").map parseNat |>.getD 0 })
   | "group" :: gid :: rest =>
     let g := fun k => kv rest k
-    let gid := parseNat gid
-    let devs := (g "devs").map parseNats |>.getD []
-    let ins := match g "in" with | some s => if s == "-" then devs.take 1 else parseNats s | none => devs.take 1
-    let outs := match g "out" with | some s => if s == "-" then (devs.getLast?.toList) else parseNats s | none => devs.getLast?.toList
-    let gi := w.devs.length
-    let w := addDev w { kind := .ginput, group := gid }
-    let w := ins.foldl (fun w d => w.rewire d [gi]) w
-    let go := w.devs.length
-    let w := addDev w { kind := .goutput, group := gid }
-    let w := w.rewire go outs
-    let groups := if w.groups.length ≤ gid then w.groups ++ List.replicate (gid + 1 - w.groups.length) {} else w.groups
-    { w with groups := groups.set gid { paths := [], input := gi, output := go } }
+    some (.group (parseNat gid) ((g "devs").map parseNats |>.getD [])
+      ((g "in").map parseNats |>.getD []) ((g "out").map parseNats |>.getD []))
   | "maint" :: rest =>
-    let cap := (kv rest "cap").bind parseOptInt
-    let v := (kv rest "value").map parseInt |>.getD 0
-    { w with maints := w.maints ++ [{ m := { cap := cap, val := { init := v, value := v } }, aid := w.assets.length + 1 }],
-             assets := w.assets ++ [AssetRef.maint w.maints.length] }
+    some (.maint ((kv rest "cap").bind parseOptInt) ((kv rest "value").map parseInt |>.getD 0))
   | "sched" :: rest =>
     let tt := ((kv rest "tt").map (splitList ",") |>.getD []).map (fun e => match e.splitOn ":" with
       | [a, b] => (parseInt a, parseInt b) | _ => (0, 0))
-    let cyc := match kv rest "cyc" with | some "0" => false | _ => true
-    { w with scheds := w.scheds ++ [{ s := { tt := tt, cyc := cyc }, aid := w.assets.length + 1 }],
-             assets := w.assets ++ [AssetRef.sched w.scheds.length] }
+    some (.sched tt (match kv rest "cyc" with | some "0" => false | _ => true))
   | "sensor" :: kind :: rest =>
     let g := fun k => kv rest k
     let vars := (g "vars").map parseNats |>.getD []
@@ -266,12 +238,14 @@ def handleAsset (w : World) (toks : List String) : World :=
       nprobes := np
       data := List.replicate np []
       cbs := List.range ((g "cbs").map parseNat |>.getD 0) }
-    { w with sensors := w.sensors ++ [{ s := s, aid := w.assets.length + 1, vars := vars, attrs := attrs,
-                                         proc := (g "proc").map parseNat |>.getD 0 }],
-             assets := w.assets ++ [AssetRef.sensor w.sensors.length] }
-  | "cms" :: _ =>
-    { w with assets := w.assets ++ [AssetRef.cms w.cmsSensors.length], cmsSensors := w.cmsSensors ++ [[]] }
-  | _ => w.setErr "bad-asset"
+    some (.sensor { s := s, vars := vars, attrs := attrs, proc := (g "proc").map parseNat |>.getD 0 })
+  | "cms" :: _ => some .cms
+  | _ => none
+
+def handleAsset (w : World) (toks : List String) : World :=
+  match parseSpec toks with
+  | some spec => w.addAsset spec
+  | none => w.setErr "bad-asset"
 
 def flushResults (w : World) : IO World := do
   for r in w.results do IO.println ("res " ++ r.str)
@@ -344,6 +318,14 @@ def handle (s : DState) (toks : List String) : IO DState := do
     let (w', _) := w.applyOp (.setVar (parseNat k) (parseInt v))
     return { s with w := w' }
   | ["wire", d, ups] => return { s with w := w.rewire (parseNat d) (parseNats ups) }
+  | "script" :: k :: "create" :: rest =>
+    match parseSpec rest with
+    | some spec => return { s with w := { w with scripts := listSetApp w.scripts (parseNat k) (.create spec) } }
+    | none => IO.println "model-error bad-op"; return s
+  | "ext" :: "create" :: rest =>
+    match parseSpec rest with
+    | some spec => printState { s with w := w.applyOps [.create spec] }
+    | none => IO.println "model-error bad-op"; return s
   | "script" :: k :: rest =>
     match parseOp rest with
     | some op => return { s with w := { w with scripts := listSetApp w.scripts (parseNat k) op } }
